@@ -42,9 +42,10 @@ def run_c02(rep):
 
 def run_c03(rep):
     n, ops = sizes(rep, (320, 16), (5000, 60))
-    families.play_family(rep, n, ops, features=dict(top_jumps=0.4, block_jumps=0.4, hooks=0.4),
-                         weights=dict(read=45, choose=35, goto=8, save=6), oracle_names=["oracle_c03"],
-                         known_classes=known_classes("C03"), label="c03")
+    families.play_family(rep, n, ops, features=dict(top_jumps=0.4, block_jumps=0.4, hooks=0.4, join=0.35),
+                         weights=dict(read=45, choose=35, goto=8, save=6), oracle_names=["oracle_c03", "oracle_c10"],
+                         known_classes=known_classes("C03") | known_classes("C10"), label="c03")
+    # (the commands in the block of a `-> @join` choice run exactly once too: each block bumps its own counter — C10's oracle)
 
 
 def run_c04(rep):
@@ -208,7 +209,8 @@ def run_c16(rep):
     import fam_share
     n, ops = sizes(rep, (200, 14), (3000, 40))
     fam_share.share_family(rep, n, ops)
-    fam_share.cross_process(rep, rep.seed, *sizes(rep, (40, 12, (0, 1)), (300, 30, (0, 1, 2, 3, 4, 5, 6, 7))))
+    fam_share.cross_process(rep, rep.seed, *sizes(rep, (80, 14, (0, 1, 2)), (400, 30, (0, 1, 2, 3, 4, 5, 6, 7))))
+    fam_share.compile_determinism(rep, rep.seed, sizes(rep, 60, 800))
     # the model side of the tie: an ordinary play family (the model is a function of story + calls)
     n2, ops2 = sizes(rep, (200, 14), (3000, 40))
     families.play_family(rep, n2, ops2, features=dict(hooks=0.4, join=0.4, render=0.5),
@@ -251,14 +253,16 @@ def run_c01(rep):
 
 PROPS = {
     "C02": dict(
-        theorems=[T + "choose_out_of_range_noop", T + "doChoose_history", T + "undo_choose"],
+        theorems=[T + "choose_out_of_range_noop", T + "doChoose_history", T + "undo_choose", T + "doChoose_used", T + "isAvail_used",
+                  T + "offerChoices_sec", T + "offerChoices_avail", T + "offerChoices_subset"],
         run=run_c02,
         rule="stories from the typed generator (conditional / one-time / block / join choices), random walks with "
              "indices drawn from [-2, n+7]; distinct by hash of (source, ops); non-trivial = at least one accepted "
              "choice and one other state-changing call",
     ),
     "C03": dict(
-        theorems=[T + "read_noop", T + "reads_noop", T + "current_after_goto", T + "current_after_choose", T + "goto_cached"],
+        theorems=[T + "read_noop", T + "reads_noop", T + "current_after_goto", T + "current_after_choose", T + "goto_cached",
+                  T + "execCommands_log", T + "executePassage_log"],
         run=run_c03,
         rule="stories with jump chains and hooks; walks interleave read calls (45 %) with navigation; the whole engine "
              "state is compared around every read; distinct by hash; non-trivial as for C02",
@@ -287,16 +291,18 @@ PROPS = {
     ),
     "C08": dict(
         theorems=[T + "renderToks_append", T + "render_stops_at_jump", T + "render_first_jump_wins", T + "gotoLoop_revisit",
-                  T + "goto_out_of_fuel", T + "usable_after_failed_goto", T + "goto_frame", T + "goto_outKept"],
+                  T + "goto_out_of_fuel", T + "usable_after_failed_goto", T + "goto_frame", T + "goto_outKept",
+                  T + "gotoLoop_bound", T + "goto_bound", T + "keys_le_length"],
         run=run_c08,
         rule="jump graphs over 3-6 passages: top-level jumps (forward), jumps inside @if/@for (any direction in 30 % of the "
              "stories, so cyclic chains occur), with arguments; every passage shows a marker line; per-call time limit; "
              "distinct by hash; non-trivial as for C02",
         level_text="proof: renderToks_append / render_stops_at_jump / render_first_jump_wins (a jump keeps what precedes it, "
                    "skips what follows, first jump wins) for every token list and Sem; gotoLoop_revisit / goto_out_of_fuel "
-                   "(cycles answer RuntimeError / RecursionError ⊂ RuntimeError); usable_after_failed_goto. Termination of the "
-                   "model is by structural recursion on an explicit bound; the real interpreter's termination is observed by a "
-                   "per-call timer (partial: wall-clock behaviour of CPython is not modelled)",
+                   "(cycles answer RuntimeError / RecursionError ⊂ RuntimeError); usable_after_failed_goto; gotoLoop_bound / goto_bound — "
+                   "the chain loop always ends through the engine's own visited check (pigeonhole over the story's passages: "
+                   "keys_le_length), never through the model's explicit bound, so the real `while True` terminates by the same "
+                   "argument. The real interpreter's wall-clock behaviour is observed by a per-call timer (partial)",
     ),
     "C09": dict(
         theorems=[T + "runHooks_runs_each_once", T + "triggerEvent_runs_registered", T + "goto_no_hookRun",
@@ -542,8 +548,8 @@ PROPS = {
 NOT_YET = {}
 
 for _k, _t in {
-    "C02": "proof: choose_out_of_range_noop / doChoose_history / undo_choose hold for every story, Sem and engine state; the offered-set and selection clauses are decided by the oracle over generated play-throughs on the real engine, the model being tied to the code by the same runs",
-    "C03": "proof: read_noop/reads_noop (every read call leaves the whole engine state unchanged), goto_cached, current_after_goto, current_after_choose for every story, Sem and state; entry counting by oracle on the real engine",
+    "C02": "proof, for every story, Sem and engine state: choose_out_of_range_noop / doChoose_history / undo_choose; doChoose_used (a valid index records exactly the identity of the i-th SHOWN choice when it is one-time, whatever the navigation then does) and isAvail_used (a used one-time choice is not available); offerChoices_sec / _avail / _subset (every choice handed out passed the section test and the availability test and is one of the passage's or the render's). That the offered list is ALL enabled choices in the variables as they stand is decided by the oracle on the real engine (false in two recorded classes)",
+    "C03": "proof: read_noop/reads_noop (every read call leaves the whole engine state unchanged), goto_cached, current_after_goto, current_after_choose; executePassage_log / execCommands_log (a successful entry records the entry once and then exactly one event per command, in source order, before any text is rendered) for every story, Sem and state; once-per-chain entry counting by oracle on the real engine",
     "C04": "proof: undo_choose, redo_undo, choose_clears_redo, empty no-ops, rejected index no-op and the invariant run_WF / undo_depth_le_cap for all histories of any length; extracted maxlen table proved equal to the model's cap",
 }.items():
     PROPS[_k]["level_text"] = _t
